@@ -107,8 +107,66 @@ def unstarted(ctx):
                 w.shutdown()
 
 
+def same_iteration(ctx):
+    """An event that would let the request go on (the ACK of one of its fragments, its response) and the cancellation of
+    the request land in the *same* iteration of the event loop: the event is processed, the request task has not been
+    resumed yet, the caller cancels.  The request ends cancelled, leaves no waiter registered, and a follow-up request
+    for the same command gets its own response.  (Not an event of the model, which takes events one at a time at
+    quiescent points: observed on the implementation.)"""
+    import hostworld
+    import streams
+    K = hostworld.kinds()
+    for kind in "GDWZ":
+        for acks_before in (0, 1, 2):
+            for what in ("ack", "rsp"):
+                w = hostworld.HostWorld()
+                try:
+                    mk, Rsp, kw = K[kind]
+                    n0 = w.n_listeners()
+                    w.start(1, mk(1), 6.0)
+                    for _ in range(acks_before):
+                        w.rx(streams.ack(priv.pack_seq(w.p)))
+                    if w.tasks[1].done():
+                        continue
+                    # same iteration: feed the bytes, cancel, only then let the loop run
+                    b = streams.ack(priv.pack_seq(w.p)) if what == "ack" else hostworld.rsp_bytes(Rsp, 1, 1, **kw)
+                    w.p.data_received(bytes(b))
+                    w.tasks[1].cancel()
+                    w.loop.settle()
+                    for _ in range(3):
+                        if w.tasks[1].done():
+                            break
+                        w.tick()
+                    first = [e for e in w.log if e.startswith("D1=")]
+                    n1 = w.n_listeners()
+                    # follow-up request for the same command, acknowledged and answered
+                    w.start(2, mk(2), 3.0)
+                    for _ in range(6):
+                        w.rx(streams.ack(priv.pack_seq(w.p)))
+                    w.rx(hostworld.rsp_bytes(Rsp, 2, 2, **kw))
+                    second = [e for e in w.log if e.startswith("D2=")]
+                    inp = dict(kind=kind, acknowledgements_before=acks_before, same_iteration_event=what)
+                    ctx.case(("same-iteration", kind, acks_before, what), nontrivial=True,
+                             sample=dict(inp, first=first, listeners_left=n1 - n0, follow_up=second))
+                    ctx.count("same-iteration:" + what)
+                    # a response that arrived in that iteration may legitimately complete the request first
+                    ended = first in (["D1=CANCELLED"],) or (what == "rsp" and first == ["D1=RET"])
+                    if not ended:
+                        ctx.counterexample("cancelled-request-lives-on", inp, "the request ends (cancelled)", first or "still running",
+                                           "a request cancelled in the iteration in which its acknowledgement / response was processed does not end")
+                    elif n1 != n0:
+                        ctx.counterexample("listener-left-by-cancelled-request", inp, 0, n1 - n0,
+                                           "a request cancelled in the iteration in which its acknowledgement / response was processed left a waiter registered")
+                    elif second != ["D2=RET"]:
+                        ctx.counterexample("follow-up-starved", inp, ["D2=RET"], second,
+                                           "the follow-up request for the same command did not receive its own response")
+                finally:
+                    w.shutdown()
+
+
 def run(ctx):
     unstarted(ctx)
+    same_iteration(ctx)
     ctx.rule = ("(a) systematic: for 4 request kinds x 4 companions x 4 progress points x {cancel, expiry}: end the request, "
                 "inject a late response, issue a follow-up request for the same command and answer it; (b) random schedules "
                 "biased to cancel / expiry / close / duplicate responses; non-trivial = >= 2 requests and >= 4 event kinds")
